@@ -217,20 +217,44 @@ def opOf : Tok → List Op
   | .fx => [.flush]
   | .cx => [.close]
 
+/-- byte strings of the C07 lines: `-` (empty), or segments joined by `.`, each plain lowercase hex or
+`xx*count` (a run of `count` equal bytes) — long records of constant samples stay short on the line. -/
+def segBytes (seg : String) : Option (List Nat) :=
+  match seg.splitOn "*" with
+  | [h] => P.hexBytesAux h.toList
+  | [h, n] =>
+    match P.hexBytesAux h.toList, n.toNat? with
+    | some [b], some k => some (List.replicate k b)
+    | _, _ => none
+  | _ => none
+
+def bytesRL : P (List Nat) := do
+  let t ← P.tok
+  if t == "-" then pure [] else
+  let rec go : List String → Option (List (List Nat))
+    | [] => some []
+    | s :: r => do
+      let a ← segBytes s
+      let b ← go r
+      pure (a :: b)
+  match go (t.splitOn ".") with
+  | some bs => pure bs.flatten
+  | none => P.fail s!"bad bytes {t.take 40}"
+
 open P in
 def parseTok : P Tok := do
   let t ← tok
   match t with
-  | "w" => do let c ← bytes; let ok ← bool; pure (.w c ok)
+  | "w" => do let c ← bytesRL; let ok ← bool; pure (.w c ok)
   | "e" => do let ok ← bool; pure (.e ok)
-  | "R" => do let c ← bytes; let ok ← bool; pure (.R c ok)
+  | "R" => do let c ← bytesRL; let ok ← bool; pure (.R c ok)
   | "p" => do let n ← nat; pure (.p n)
   | "y" => do let n ← nat; pure (.y n)
   | "tb" => do let n ← nat; pure (.tb n)
   | "te" => do let n ← nat; pure (.te n)
-  | "f" => do let q ← nat; let d ← bytes; pure (.f q d)
-  | "c" => do let q ← nat; let d ← bytes; pure (.c q d)
-  | "z" => do let d ← bytes; pure (.z d)
+  | "f" => do let q ← nat; let d ← bytesRL; pure (.f q d)
+  | "c" => do let q ← nat; let d ← bytesRL; pure (.c q d)
+  | "z" => do let d ← bytesRL; pure (.z d)
   | "fx" => pure .fx
   | "cx" => pure .cx
   | _ => fail s!"bad token {t}"
